@@ -543,6 +543,9 @@ func checkGenTestParams(p *core.Program, r *core.Report, helpers []*hashHelper) 
 		info := c.Pkg.TypesInfo
 		g := (*flow.Graph)(nil)
 		ast.Inspect(c.Action.Node, func(nd ast.Node) bool {
+			if fl, isLit := nd.(*ast.FuncLit); isLit && ast.Node(fl) != c.Action.Node {
+				return false // a nested literal (a command's action built by a constructor function) is a unit of its own
+			}
 			call, ok := nd.(*ast.CallExpr)
 			if !ok {
 				return true
